@@ -162,6 +162,10 @@ PRINT_FILTERS = [
     ('FROM length(narration)', lambda e: type(e).__name__ == 'Transaction' and len(e.narration or '') > 0),
     ('FROM meta("when")', lambda e: bool((e.meta or {}).get('when'))),
     ('FROM year - 2020', lambda e: e.date.year != 2020),
+    # OR with a first operand that is NULL on the directives the second one accepts (payee / narration / flag of a non-transaction)
+    ('FROM payee = "Acme" OR type = "open"', lambda e: (type(e).__name__ == 'Transaction' and e.payee == 'Acme') or type(e).__name__ == 'Open'),
+    ('FROM narration ~ "rent" OR flag = "!" OR type = "note" OR type = "balance"',
+     lambda e: (type(e).__name__ == 'Transaction' and (re.search('rent', e.narration or '', re.I) is not None or e.flag == '!')) or type(e).__name__ in ('Note', 'Balance')),
     ('FROM has_account("Opening")', lambda e: any(re.search('Opening', a, re.I) for a in _accounts_of(e))),
     ('FROM has_account("Cash") AND type != "transaction"', lambda e: type(e).__name__ != 'Transaction' and any(re.search('Cash', a, re.I) for a in _accounts_of(e))),
     ('FROM NOT has_account("Assets")', lambda e: not any(re.search('Assets|Actifs', a, re.I) for a in _accounts_of(e)) if False else not any(re.search('Assets', a, re.I) for a in _accounts_of(e))),
